@@ -3,7 +3,7 @@
    instantiation of the abstract cryptography (types of keys / ciphertexts included) that
    satisfies the hypotheses written in the statement. *)
 From Coq Require Import ZArith List Bool Znumtheory.
-From TD Require Import Lib.GoSem Lib.RunLib Lib.BigIntSem Gen.DhCheck Model.DhCheck Model.Exchange Model.ExchangeDemo Model.Alternation Proof.Exchange Proof.Alternation.
+From TD Require Import Lib.GoSem Lib.RunLib Lib.BigIntSem Gen.DhCheck Model.DhCheck Model.Exchange Model.ExchangeDemo Model.Alternation Model.TlSchema Gen.SchemaMt Model.ProtoMsg Proof.ProtoMsg Model.ExchangeWire Proof.Exchange Proof.Alternation Proof.ExchangeWire.
 Import ListNotations.
 Open Scope Z_scope.
 
@@ -155,3 +155,32 @@ Example C09_instance_completes :
   end.
 Proof. vm_compute. reflexivity. Qed.
 (* modpow is exponentiation: Proof/DhCheck.v modpow_spec, so [d_*] instantiates pow_ok as well *)
+
+(* ---------- byte level (Model/ExchangeWire.v) ----------
+   The plaintext exchange messages are TL values of the GENERATED mt schema (Gen/SchemaMt.v from
+   _schema/mt.tl) encoded by the generic interpreter of C21 inside the unencrypted_message framing
+   of C22.  The constructor positions the model uses are the constructors of mt.tl ... *)
+Theorem C09_wire_constructors :
+  map id_of [ci_respq; ci_sdh_fail; ci_sdh_ok; ci_gen_ok; ci_gen_retry; ci_gen_fail; ci_req_pq_multi; ci_req_dh; ci_set_dh]
+  = [0x05162463; 0x79cb045d; 0xd0e8075c; 0x3bcbf734; 0x46dc1fb9; 0xa69dae02; 0xbe7e8ef1; 0xd712e4be; 0xf5045f1f]
+  /\ cls_of ci_sdh_fail = cls_of ci_sdh_ok /\ cls_of ci_gen_retry = cls_of ci_gen_ok /\ cls_of ci_gen_fail = cls_of ci_gen_ok.
+Proof. exact wire_ctor_ids. Qed.
+Print Assumptions C09_wire_constructors.
+
+(* ... and every well-typed message survives the wire: what one side sends (TL body in an
+   unencrypted_message) decodes on the other side to the same value, so the record-level run
+   [honest_run] is what the byte-level run computes. *)
+Theorem C09_wire_roundtrip : forall id t v,
+  wt mt_schema (depth v) t v = true -> i64 id ->
+  (forall bs, body_of t v = Ok bs -> Lib.GoSlice.len bs < 2 ^ 31) ->
+  exists w, wire_of id t v = Ok w /\ value_of_wire t w = Some v.
+Proof. exact wire_roundtrip. Qed.
+Print Assumptions C09_wire_roundtrip.
+Theorem C09_respq_record_roundtrip : forall m, 0 <= rp_pq m -> of_v_respq (v_respq m) = Some m.
+Proof. exact of_v_respq_v. Qed.
+Print Assumptions C09_respq_record_roundtrip.
+(* non-vacuity: the demo instance's ResPQ is well-typed and round-trips *)
+Example C09_wire_instance :
+  wt mt_schema (depth (v_respq d_m2)) (TBoxed ci_respq) (v_respq d_m2) = true /\
+  match body_of (TBoxed ci_respq) (v_respq d_m2) with Ok b => option_map of_v_respq (value_of_body (TBoxed ci_respq) b) = Some (Some d_m2) | _ => False end.
+Proof. split; vm_compute; reflexivity. Qed.
